@@ -619,3 +619,22 @@ def session_logging(rng, p=0.25):
     finally:
         if level is not None:
             logging.root.setLevel(logging.WARNING)
+
+
+def snapshot(obj):
+    """deep copy of an argument (numpy arrays, lists, tuples, dicts, scalars) taken before a call"""
+    import copy
+    return copy.deepcopy(obj)
+
+
+def same_as_snapshot(obj, snap):
+    """whether a call left its argument as it was (numpy arrays compared elementwise, NaN equal to NaN)"""
+    import numpy as np
+    if isinstance(obj, np.ndarray) or isinstance(snap, np.ndarray):
+        return (isinstance(obj, np.ndarray) and isinstance(snap, np.ndarray) and obj.shape == snap.shape
+                and obj.dtype == snap.dtype and bool(np.array_equal(obj, snap, equal_nan=(obj.dtype.kind == "f"))))
+    if isinstance(obj, dict):
+        return isinstance(snap, dict) and list(obj.keys()) == list(snap.keys()) and all(same_as_snapshot(obj[k], snap[k]) for k in obj)
+    if isinstance(obj, (list, tuple)):
+        return type(obj) is type(snap) and len(obj) == len(snap) and all(same_as_snapshot(a, b) for a, b in zip(obj, snap))
+    return obj == snap or (obj != obj and snap != snap)
